@@ -11,7 +11,9 @@
 (* sides of any pair; `Swap` exchanges the sides.  The four laws of the    *)
 (* property are action properties / invariants over this graph, so TLC     *)
 (* evaluates them for all values, all pairs and all addends.                *)
-EXTENDS Serial, Sequences, TLC, Json
+EXTENDS SerialSites, Sequences, TLC, Json
+
+CONSTANT Sites        \* the site table (SerialSites!SiteTable)
 
 VARIABLES a, b
 vars == <<a, b>>
@@ -68,32 +70,24 @@ IQuantified == b = 0 => \A n \in Addend : /\ LawAddGreater(a, n)
 (* S->I generators: one comparison case and one addition case per state.   *)
 (* The executor lifts k-bit values to 32 bits by x |-> x * 2^(32-k) + c.   *)
 
-\* dnssec::sign::signatures::rrsigs::sign_rrset(expiration = a, inception = b)
-\* refuses a validity period whose expiration is before its inception; where
-\* RFC 1982 leaves the order undefined either outcome is admissible
-SignDecision(r) == CASE r = "LT" -> "reject" [] r = "UNDEF" -> "any" [] OTHER -> "accept"
-
-\* zonetree::InMemoryZoneDiffBuilder::build() for a diff from SOA serial a to
-\* SOA serial b is refused (InvalidSerialRange) unless b is newer than a
-DiffDecision(r) == CASE r = "LT" -> "accept" [] r = "UNDEF" -> "any" [] OTHER -> "reject"
-
-\* net::server::middleware::xfr, RFC 1995 section 2: an IXFR request from a
-\* client at serial a to a server whose zone is at serial b (diffs available)
-\* is answered with a single SOA if the client has the same or a newer
-\* version, otherwise with a transfer (diff sequence, or the whole zone)
-IxfrDecision(r) == CASE r = "LT" -> "transfer" [] r = "UNDEF" -> "any" [] OTHER -> "single"
-
+\* one expectation per site of kind "cmp" / "add" in the table, all from Cmp /
+\* ImplAdd; `ops` / `rev` bind the operators and antisymmetry of base::Serial,
+\* `ref` / `refk` the harness reference at 32 and at k bits
 EmitCmp == PrintT("CASE " \o ToJson(
    [in  |-> [kind |-> "cmp", k |-> BITS, a |-> a, b |-> b],
     exp |-> LET r == Cmp(a, b) IN
-            [serial |-> r, ops |-> OpsOf(r), rev |-> Flip(r), timestamp |-> r,
-             soa |-> r, rrsig |-> r, sign |-> SignDecision(r), diff |-> DiffDecision(r),
-             ixfr |-> IxfrDecision(r),
-             newserial |-> r, ref |-> r, refk |-> r]]))
+            [s \in SitesOf(Sites, "cmp") |-> ExpectCmp(OpOf(Sites, "cmp", s), r)]
+            @@ [ops |-> OpsOf(r), rev |-> Flip(r), ref |-> r, refk |-> r]]))
 
 EmitAdd == PrintT("CASE " \o ToJson(
    [in  |-> [kind |-> "add", k |-> BITS, a |-> a, n |-> b],
     exp |-> LET r == ImplAdd(a, b) IN
-            [serial |-> r, newserial |-> r, ref |-> r,
-             grew |-> (b \in 1 .. H - 1)]]))
+            [s \in SitesOf(Sites, "add") |-> r]
+            @@ [ref |-> r, grew |-> (b \in 1 .. H - 1)]]))
+
+\* the executor must know exactly the table's sites (emitted once)
+EmitSites == (a = 0 /\ b = 0) => PrintT("CASE " \o ToJson(
+   [in  |-> [kind |-> "sites", k |-> BITS],
+    exp |-> [kd \in {"cmp", "add", "window", "fresh", "place"} |->
+               [s \in SitesOf(Sites, kd) |-> OpOf(Sites, kd, s)]]]))
 =============================================================================
